@@ -175,13 +175,14 @@ class C03(RecorderProp):
         def ev(e):
             if 'c' in e:
                 return to_py(e['c'])
-            return env[e['v']]
+            return env.get(e['v'], '<unbound>')       # (a shrunken program may have lost the binding; as in recorder_sim.ev)
 
         for st in script:
             if st['op'] == 'let':
                 env[st['x']] = ev(st['e'])
             elif st['op'] == 'append':
-                env[st['x']].append(ev(st['e']))
+                if isinstance(env.get(st['x']), list):
+                    env[st['x']].append(ev(st['e']))
             elif st['op'] == 'call':
                 sp = sites[st['s']]
                 if sp['kind'] != 'out':
